@@ -304,6 +304,7 @@ def z3_deepcopy_patch():
     Fn.__deepcopy__ = lambda self, memo: self
 z3_deepcopy_patch()
 
+VEC_MODEL_TYPES = {'RatePoint', 'EmodeEntry'}
 _FOREIGN = {}
 def foreign_const(path):
     """integer literal const of a dependency crate, read from its vendored source (e.g. switchboard_on_demand::PRECISION)"""
@@ -913,6 +914,12 @@ class Engine:
             if f == 'abs': return iv(abs_(a))
             if f == 'int': return iv(fdiv(a, W) * W)
             if f == 'frac': return iv(a - fdiv(a, W) * W)
+            if f in ('saturating_add', 'saturating_sub') and a is not None and b is not None:
+                r = a + b if f == 'saturating_add' else a - b
+                return iv(z3.If(r < I128_MIN, I128_MIN, z3.If(r > I128_MAX, I128_MAX, r)))
+            if f == 'saturating_mul' and a is not None and b is not None:
+                r = fdiv(a * b, W)
+                return iv(z3.If(r < I128_MIN, I128_MIN, z3.If(r > I128_MAX, I128_MAX, r)))
         m = re.match(r'^<I80F48 as (PartialOrd|PartialEq|Ord)(?:<.*>)?>::(\w+)$', c)
         if m:
             a = self.deref_val(args[0]).e; b = self.deref_val(args[1]).e
@@ -1099,6 +1106,38 @@ class Engine:
                 if i not in arr.fields:
                     arr.fields[i] = self.ex.fresh(it.fields['__elemty'], f'{arr.name}[{i}]')
                 return EnumV('Option', 1, {1: {0: arr.fields[i]}})
+        # ---- BTreeMap<K, V> with scalar keys: insertion-ordered association list (keys pairwise distinct by construction);
+        #      consuming iteration yields insertion order, NOT key order: obligations over it must be order-insensitive
+        if re.match(r'^BTreeMap::<.*>::new$', c):
+            return StructV('BTreeMap', self.ex.fresh_name('map'), {'__map': True, '__keys': [], '__cells': []}, lazy=False)
+        if re.match(r'^BTreeMap::<.*>::entry$', c):
+            mp = self.deref_val(args[0]); key = args[1]
+            if isinstance(mp, StructV) and '__map' in mp.fields and isinstance(key, IntV):
+                n = len(mp.fields['__keys'])
+                def occ(i):
+                    return lambda st_, a_: StructV('btree_map::Entry', self.ex.fresh_name('entry'), {'__entry': True, '__mapref': a_[0], '__idx': i, '__key': a_[1]}, lazy=False)
+                alts = [(key.e == mp.fields['__keys'][i].e, occ(i)) for i in range(n)]
+                alts.append((z3.And([key.e != k.e for k in mp.fields['__keys']] + [z3.BoolVal(True)]), occ(None)))
+                return ForkResult(alts)
+        if re.match(r'^std::collections::btree_map::Entry::<.*>::or_insert$', c):
+            ent = args[0]
+            if isinstance(ent, StructV) and '__entry' in ent.fields:
+                mp = self.deref_val(ent.fields['__mapref'])
+                if ent.fields['__idx'] is None:
+                    mp.fields['__keys'].append(ent.fields['__key']); mp.fields['__cells'].append(Cell(args[1]))
+                    return RefV(mp.fields['__cells'][-1])
+                return RefV(mp.fields['__cells'][ent.fields['__idx']])
+        if re.match(r'^<BTreeMap<.*> as IntoIterator>::into_iter$', c):
+            mp = args[0]
+            if isinstance(mp, StructV) and '__map' in mp.fields:
+                return StructV('btree_map::IntoIter', self.ex.fresh_name('mapiter'), {'__mapiter': True, '__keys': list(mp.fields['__keys']), '__cells': list(mp.fields['__cells']), '__idx': 0}, lazy=False)
+        if re.match(r'^<std::collections::btree_map::IntoIter<.*> as Iterator>::next$', c):
+            it = self.deref_val(args[0])
+            if isinstance(it, StructV) and '__mapiter' in it.fields:
+                i = it.fields['__idx']
+                if i >= len(it.fields['__keys']): return EnumV('Option', 0, {})
+                it.fields['__idx'] = i + 1
+                return EnumV('Option', 1, {1: {0: StructV('tuple', self.ex.fresh_name('kv'), {0: it.fields['__keys'][i], 1: it.fields['__cells'][i].val}, lazy=False)}})
         bm_ = re.match(r'^Box::<(.*)>::new$', c)
         if bm_ and len(args) == 1 and not bm_.group(1).startswith('dyn ') and 'anchor_lang' not in bm_.group(1):
             return StructV('Box<%s>' % bm_.group(1), self.ex.fresh_name('box'), {'__pointee': Cell(args[0])}, lazy=True)
@@ -1161,8 +1200,42 @@ class Engine:
                     cid = intern_bytes('bytes:' + ','.join(str(z3.simplify(x.e).as_long()) for x in items))
                     e_ = a_.e == cid
                     return BoolV(e_ if op_ == 'eq' else z3.Not(e_))
+        # ---- Vec<T> of plain records built locally by push (concrete length per path): python list of values
+        vm_ = re.match(r'^Vec::<(\w+)>::(with_capacity|new)$', c)
+        if vm_ and vm_.group(1) in VEC_MODEL_TYPES:
+            return StructV(f'Vec<{vm_.group(1)}>', self.ex.fresh_name('vec'), {'__vec': True, '__items': []}, lazy=False)
+        vm_ = re.match(r'^Vec::<(\w+)>::(push|len|is_empty)$', c)
+        if vm_ and vm_.group(1) in VEC_MODEL_TYPES:
+            v = self.deref_val(args[0])
+            if isinstance(v, StructV) and '__vec' in v.fields:
+                if vm_.group(2) == 'push':
+                    v.fields['__items'].append(args[1]); return StructV('()', 'unit', {}, lazy=False)
+                if vm_.group(2) == 'len': return IntV(z3.IntVal(len(v.fields['__items'])), 'usize')
+                return BoolV(z3.BoolVal(len(v.fields['__items']) == 0))
+        vm_ = re.match(r'^<Vec<(\w+)> as Index<usize>>::index$', c)
+        if vm_ and vm_.group(1) in VEC_MODEL_TYPES:
+            v = self.deref_val(args[0]); k_ = z3.simplify(args[1].e)
+            if isinstance(v, StructV) and '__vec' in v.fields and z3.is_int_value(k_):
+                if k_.as_long() >= len(v.fields['__items']): raise PathEnd('panic: index out of bounds')
+                return RefV(Cell(v.fields['__items'][k_.as_long()]))
+        if re.match(r'^<std::ops::Range<usize> as IntoIterator>::into_iter$', c) and isinstance(args[0], StructV):
+            return args[0]
+        if re.match(r'^<std::ops::Range<usize> as Iterator>::next$', c):
+            rg = self.deref_val(args[0])
+            if isinstance(rg, StructV) and 0 in rg.fields and 1 in rg.fields:
+                a_, b_ = z3.simplify(rg.fields[0].e), z3.simplify(rg.fields[1].e)
+                if z3.is_int_value(a_) and z3.is_int_value(b_):
+                    if a_.as_long() >= b_.as_long(): return EnumV('Option', 0, {})
+                    nv_ = IntV(z3.IntVal(a_.as_long() + 1), 'usize')
+                    rg.fields[0] = nv_
+                    if 'start' in rg.fields: rg.fields['start'] = nv_
+                    return EnumV('Option', 1, {1: {0: IntV(a_, 'usize')}})
         if re.match(r'^<Vec<(.*)> as Deref>::deref$', c):
             v = self.deref_val(args[0])
+            if isinstance(v, StructV) and '__vec' in v.fields:
+                items = v.fields['__items']
+                em = re.match(r'^Vec<(.*)>$', v.ty)
+                return RefV(Cell(StructV(f'[{em.group(1)}; {len(items)}]', self.ex.fresh_name('vecslice'), dict(enumerate(items)), lazy=False)))
             if isinstance(v, StructV):
                 em = re.match(r'^(?:std::vec::)?Vec<(.*)>$', v.ty.strip())
                 if '__slice' not in v.fields:
@@ -1898,6 +1971,18 @@ class Engine:
                 self.assign(ns, dest, val); self.goto(ns, retbb)
                 forks.append(ns)
             return forks
+        am_ = re.match(r'^std::collections::btree_map::Entry::<.*>::and_modify::<(\{closure@[^}]*\})>$', callee)
+        if v is None and am_ and isinstance(args[0], StructV) and '__entry' in args[0].fields:
+            ent = args[0]
+            self.assign(st, dest, ent)
+            if ent.fields['__idx'] is None:
+                self.goto(st, retbb); return
+            cf = self.closure_fn(am_.group(1), st, None)
+            if cf is None or not cf.blocks: raise Exception('and_modify: closure body not found ' + callee)
+            mp = self.deref_val(ent.fields['__mapref'])
+            fr['bb'] = None
+            self.push_frame(st, cf, [args[1], RefV(mp.fields['__cells'][ent.fields['__idx']])], None, retbb)
+            return
         cm = re.match(r'^<(\{closure@[^}]*\}) as (Fn|FnMut|FnOnce)<\(.*\)>>::(call|call_mut|call_once)$', callee)
         if v is None and cm:
             dm_ = re.match(r'^(_\d+)$', dest)
